@@ -39,7 +39,7 @@ def run_check(prop, tier, repo=None, write=True, out=print):
         return 2
     try:
         from .core.loader import Budget
-        with Budget(int(os.environ.get('SA_CHECK_BUDGET', '1200' if
+        with Budget(int(os.environ.get('SA_CHECK_BUDGET', '2400' if
                                        tier == 'quick' else '3600')),
                     'the %s analysis of %s' % (tier, prop)):
             ctx = Ctx(prop, tier, repo=repo, write=write)
